@@ -153,6 +153,8 @@ class BuiltinMixin:
         if not args:
             return frozenset()
         v = args[0]
+        if isinstance(v, dict) and is_concrete(list(v.keys())):
+            return frozenset(v.keys())
         if isinstance(v, (list, tuple, frozenset)) and is_concrete(v):
             return frozenset(v)
         if isinstance(v, (list, tuple)):
@@ -438,6 +440,14 @@ class BuiltinMixin:
                         out.append(s)
                     out.append(p)
                 return self.concat_strs(out) if out else ""
+            if isinstance(parts, SList) and parts.ety is TStr and isinstance(s, str) and s == " ":
+                # " ".join(tokens): named by a ghost function of the token list; assumed str algebra (audited): the
+                # whitespace split of the joined text gives the tokens back (tokens are non-empty and whitespace free)
+                from .values import JOIN_SP
+                r = JOIN_SP(parts.a, parts.n)
+                i = z3.Int(fresh_name("jn"))
+                st.pc = st.pc + (WS_LEN(r) == parts.n, z3.ForAll([i], z3.Implies(z3.And(0 <= i, i < parts.n), WS_ARR(r)[i] == parts.a[i])))
+                return SV(TStr, r)
             raise Unsupported("join of symbolic list")
         if name == "split":
             if not args and not kwargs:
@@ -548,8 +558,10 @@ class BuiltinMixin:
             if name == "clear":
                 return []
         if isinstance(recv, (list, SList)):
-            L = self.as_slist(recv, type_of(args[0]) if (name in ("append",) and not recv) else None) \
-                if not isinstance(recv, SList) else recv
+            hint = None
+            if not isinstance(recv, SList) and not recv and args:
+                hint = type_of(args[0]) if name == "append" else (args[0].ety if isinstance(args[0], SList) else None)
+            L = self.as_slist(recv, hint) if not isinstance(recv, SList) else recv
             j = z3.Int(fresh_name("m"))
             if name == "append":
                 return SList(L.ety, L.n + 1, z3.Store(L.a, L.n, to_term(args[0])))
